@@ -89,6 +89,7 @@ type jCase struct {
 	Cfg    jCfg     `json:"cfg"`
 	Abs    []jAbs   `json:"abs"`
 	Events []jEvent `json:"events"`
+	Logs   bool     `json:"logs"` // run the device with logging enabled as in production (NewDevice noLogs = false); the log channel is drained
 }
 type jState struct {
 	Octave   int    `json:"octave"`
@@ -296,7 +297,7 @@ func runCase(c jCase) jResult {
 			created <- ""
 		}()
 		d = NewDevice(buildInputDevice(c.Abs), config.DeviceConfig{ConfigFile: "verif", ConfigType: "user", Config: cfg},
-			midiOut, midiIn, true, 0, sigs)
+			midiOut, midiIn, !c.Logs, 0, sigs)
 	}()
 	if msg := <-created; msg != "" {
 		res.Panic = "NewDevice: " + msg
